@@ -114,7 +114,7 @@ def get_notes(key="C"):
     ['C', 'D', 'Eb', 'F', 'G', 'Ab', 'Bb']
     """
     if key in _key_cache:
-        return _key_cache[key]
+        return list(_key_cache[key])
     if not is_valid_key(key):
         raise NoteFormatError("unrecognized format for key '%s'" % key)
     result = []
@@ -137,7 +137,7 @@ def get_notes(key="C"):
 
     # Save result to cache
     _key_cache[key] = result
-    return result
+    return list(result)
 
 
 def relative_major(key):
